@@ -44,6 +44,30 @@ type MapV struct {
 	entries []*mapEntry
 	kt      types.Type
 	id      int
+	sidx    map[string]*mapEntry // entries whose key is a concrete Go string (exact lookup without a scan)
+	nonStr  int                  // entries with any other key
+}
+
+func (m *MapV) add(e *mapEntry) {
+	if s, ok := e.k.(string); ok {
+		if m.sidx == nil {
+			m.sidx = map[string]*mapEntry{}
+		}
+		m.sidx[s] = e
+	} else {
+		m.nonStr++
+	}
+	m.entries = append(m.entries, e)
+}
+
+func (m *MapV) removeAt(i int) {
+	e := m.entries[i]
+	if s, ok := e.k.(string); ok {
+		delete(m.sidx, s)
+	} else {
+		m.nonStr--
+	}
+	m.entries = append(append([]*mapEntry{}, m.entries[:i]...), m.entries[i+1:]...)
 }
 
 type ChanV struct {
